@@ -5,7 +5,7 @@ A program text of F2 is a list of top-level forms of `Ff true ""`: expressions, 
 `LoadExpressions` compiles the whole text at once: the templates of all its `fn`/`defn` — nested
 ones too — are in the function table before the first instruction runs (`GenOk`).
 -/
-import ZygoVerif.Proofs.SimF2
+import ZygoVerif.Proofs.SimF2Ind
 import ZygoVerif.Proofs.SimFcTop
 set_option linter.unusedSimpArgs false
 set_option linter.unusedVariables false
